@@ -145,6 +145,8 @@ def run(res, tier, seed, broken_model):
     res.streams["pipelines"] = dict(programs=len(pipes))
     progprop.judge(res, precs, broken_model, label="pipes")
     monitor_oracle(res, precs, "pipes")
+    from props import c02
+    c02.negative_stream(res, rnd, tier, seed, "C01")
     host_calls(res, rnd, 60 if tier == "quick" else 1500, broken_model, "C01")
     res.rule = ("seeded type-directed programs over the whole statement / expression grammar, iterator pipelines with manual "
                 "pulls past exhaustion, and host calls of functions with arguments drawn from their parameter types; every "
